@@ -249,3 +249,44 @@ func zzC01_bmff_ctbo() {
 	}
 	zzReached("end")
 }
+
+// HEIF route: meta{iinf{infe Exif id 1}, iloc{item 1: offset, length}} then mdat: the Exif item's offset and length are
+// arbitrary (classes around the mdat payload), the 48 payload bytes are arbitrary (part 0) or start with a 4-byte prefix
+// + "Exif\0\0" + TIFF header (part 1).
+func zzC01_bmff_mdat_N() int { return 26 }
+func zzC01_bmff_mdat() {
+	const meta = 24
+	const iinf = meta + 12
+	const iloc = iinf + 8 + 6 + 22
+	const mdat = iloc + 8 + 8 + 14
+	const N = mdat + 8 + 48
+	z := &zzBuf{b: make([]byte, N)}
+	z.str(0, "\x00\x00\x00\x18ftypavif\x00\x00\x00\x00avifmif1")
+	z.box(meta, mdat-meta, "meta")
+	z.box(iinf, 8+6+22, "iinf")
+	z.b[iinf+13] = 1 // count
+	z.box(iinf+14, 22, "infe")
+	z.b[iinf+14+8] = 2 // version 2
+	z.b[iinf+14+13] = 1 // item id 1
+	z.str(iinf+14+16, "Exif")
+	z.box(iloc, 8+8+14, "iloc")
+	z.b[iloc+12] = 0x44
+	z.b[iloc+15] = 1 // one item
+	z.b[iloc+17] = 1 // item id 1
+	z.b[iloc+21] = 1 // one extent
+	// the item offset: one class per partition (before, at and inside the mdat payload, at and past the end, huge)
+	off := []uint32{0, 1, mdat, mdat + 8, mdat + 8 + 4, mdat + 8 + 16, mdat + 8 + 20, mdat + 8 + 40, N - 1, N, N + 16, 0x7fffffff, 0xffffffff}[zzPart()/2]
+	z.put32(iloc+22, off)
+	ln := zzU32("len")
+	zzAssume(ln <= 2 || ln == 8 || ln == 15 || ln == 16 || ln == 17 || ln == 23 || ln == 24 || ln == 25 || ln == 26 || ln == 30 || ln == 48 || ln == 49 || ln == 0x7fffffff || ln == 0xffffffff)
+	z.put32(iloc+26, uint32(zzConc(uint64(ln), 20)))
+	z.box(mdat, 8+48, "mdat")
+	z.sym(mdat+8, "p", 48)
+	if zzPart()%2 == 1 {
+		z.str(mdat+8+4, "Exif\x00\x00II*\x00\x08\x00\x00\x00")
+	}
+	for mode := 0; mode < 2; mode++ {
+		_ = zzBmffRun(z.b, 2, mode, false)
+	}
+	zzReached("end")
+}
